@@ -80,11 +80,13 @@ class C01(PropCheck):
         for kind, line, meta in cases:
             if kind == 'conserve':
                 sec3.add(line, 'ok', meta=meta, nontrivial=len(meta['pages']) >= 2, tags=[meta['doc_id'].split('-')[0]])
+            elif kind == 'error':
+                sec3.tags[f'render-error {meta["error"]} (left to C02)'] += 1
 
     def classify(self, d):
         if d['section'] == 'pm-foot-documents':
             return pm_foot_corr.classify(pm_foot_corr.doc_from_json(d['meta']['doc']), d['impl'])
-        if d['section'] == 'wide-traces':
+        if d['section'] in ('wide-traces', 'fixed-regressions'):
             return wide_trace.explain(d['meta'], d['model'])
         if d['section'] == 'families' and d['meta']['doc_id'] in self._family_known.get('conserve', ()):
             return 'family-documents-known'
@@ -150,9 +152,8 @@ class C01(PropCheck):
                 'out-of-flow-lost-at-document-end': float_lost_at_end,
                 'flex-grid-fragmentation-loses-content': grid_item_lost,
                 'footnote-in-columns-lost-or-duplicated': lambda: corpus_fails('footnote_in_columns'),
-                'table-in-columns-duplicates-rows': lambda: corpus_fails('table_in_columns_duplicates_rows'),
-                'table-cell-restarts-after-empty-fragment': lambda: corpus_fails('table_cell_restarts'),
                 'float-in-columns-fragment-duplicated': lambda: corpus_fails('float_in_columns_duplicated'),
+                'table-cell-skips-a-page': lambda: corpus_scattered('table_cell_restarts'),
                 'stale-next-page-scatters-fragments': stale_next_page}
 
     def replay(self, data):
@@ -204,7 +205,9 @@ def corpus_fails(name):
 
 # repaired findings: (fixed: id, corpus document) - run first in every check; a `fixed:` line suppresses nothing
 FIXED_REGRESSIONS = [('float-fragment-duplicated', 'float_fragment_duplicated'),
-                     ('column-span-loses-following-content', 'column_span_loses')]
+                     ('column-span-loses-following-content', 'column_span_loses'),
+                     ('table-cell-restarts-after-empty-fragment', 'table_cell_restarts'),
+                     ('table-in-columns-duplicates-rows', 'table_in_columns_duplicates_rows')]
 
 
 def fixed_regression_cases():
@@ -222,6 +225,16 @@ def fixed_regression_cases():
             continue
         line = sx.line('conserve', [[wide_trace.KIND[g['kind']], g['words']] for g in data['groups']], pages)
         yield name, line, {'html': data['html'], 'groups': data['groups'], 'pages': pages, 'doc_id': name}
+
+
+def corpus_scattered(name):
+    import json
+    from harness import widegen
+    from vlib.paths import CORPUS
+    data = json.loads((CORPUS / 'C01' / f'{name}.json').read_text())
+    docs.quiet()
+    pages = widegen.page_words(docs.render(data['html']))
+    return bool(wide_trace.scattered_groups(data['groups'], pages))
 
 
 def float_lost_at_end():
